@@ -136,6 +136,8 @@ pub struct Interpreter<'a, R: RealNumberInternalTrait> {
     libraries: HashMap<LibraryName, Library<R>>,
     imported_library: HashSet<LibraryName>,
     import_end: bool, // indicate program's import declaration part end
+    // macros defined through this interpreter: visible to its later input, to no other interpreter
+    syntax_env: Rc<LexicalScope<Transformer>>,
     pub program_directory: Option<PathBuf>,
     _marker: PhantomData<R>,
 }
@@ -154,6 +156,7 @@ impl<'a, R: RealNumberInternalTrait> Interpreter<'a, R> {
             libraries: HashMap::new(),
             imported_library: HashSet::new(),
             import_end: false,
+            syntax_env: new_syntax_environment(),
             program_directory: None,
             _marker: PhantomData,
         };
@@ -735,7 +738,7 @@ impl<'a, R: RealNumberInternalTrait> Interpreter<'a, R> {
     pub fn eval(&mut self, char_stream: impl Iterator<Item = char>) -> Result<Option<Value<R>>> {
         {
             let lexer = Lexer::from_char_stream(char_stream);
-            let mut parser = Parser::from_lexer(lexer);
+            let mut parser = Parser::from_lexer_with_syntax_env(lexer, self.syntax_env.clone());
             parser.try_fold(None, |_, statement| self.eval_root_ast(&statement?))
         }
     }
